@@ -282,7 +282,9 @@ func (e *Extractor) extractPrefixesAlternate(re *syntax.Regexp, depth int) *Seq 
 		e.markAllInexact(result)
 		result.Dedup()
 		if result.Len() > e.config.MaxLiterals {
+			// Dropped literals stand for branches the set no longer represents
 			result.literals = result.literals[:e.config.MaxLiterals]
+			result.partialCoverage = true
 		}
 		// Mark partial coverage when overflow truncated branches.
 		// Prefilter with partial coverage CANNOT be used in candidate loops
@@ -349,6 +351,10 @@ func (e *Extractor) extractPrefixesConcat(re *syntax.Regexp, depth int) *Seq {
 
 		// Compute cross-product of accumulator with contribution
 		acc.CrossForward(contribution)
+		if contribution.IsPartialCoverage() {
+			// the contribution had lost members: so has the product
+			acc.partialCoverage = true
+		}
 
 		// Enforce overflow limits
 		if acc.Len() > crossLimit || acc.Len() > e.config.MaxLiterals {
@@ -482,6 +488,7 @@ func (e *Extractor) expandAlternateContribution(alt *syntax.Regexp, depth int) *
 		result.Dedup()
 		if result.Len() > e.config.MaxLiterals {
 			result.literals = result.literals[:e.config.MaxLiterals]
+			result.partialCoverage = true
 		}
 	}
 
@@ -554,6 +561,7 @@ func (e *Extractor) handleCrossProductOverflow(s *Seq) *Seq {
 	// If still over MaxLiterals after dedup, truncate the list
 	if s.Len() > e.config.MaxLiterals {
 		s.literals = s.literals[:e.config.MaxLiterals]
+		s.partialCoverage = true
 	}
 	return s
 }
@@ -693,8 +701,10 @@ func (e *Extractor) extractSuffixes(re *syntax.Regexp, depth int) *Seq {
 			}
 			for i := 0; i < seq.Len(); i++ {
 				allLits = append(allLits, seq.Get(i))
-				if len(allLits) >= e.config.MaxLiterals {
-					return NewSeq(allLits...)
+				if len(allLits) > e.config.MaxLiterals {
+					// More alternatives than the set may hold: a truncated set would not
+					// represent the remaining branches, so there is no usable set
+					return NewSeq()
 				}
 			}
 		}
@@ -793,8 +803,10 @@ func (e *Extractor) extractInner(re *syntax.Regexp, depth int) *Seq {
 			}
 			for i := 0; i < seq.Len(); i++ {
 				allLits = append(allLits, seq.Get(i))
-				if len(allLits) >= e.config.MaxLiterals {
-					return NewSeq(allLits...)
+				if len(allLits) > e.config.MaxLiterals {
+					// More alternatives than the set may hold: a truncated set would not
+					// represent the remaining branches, so there is no usable set
+					return NewSeq()
 				}
 			}
 		}
@@ -889,6 +901,7 @@ func (e *Extractor) expandCaseFoldLiteral(runes []rune) *Seq {
 	result.Dedup()
 	if result.Len() > e.config.MaxLiterals {
 		result.literals = result.literals[:e.config.MaxLiterals]
+		result.partialCoverage = true
 	}
 	return result
 }
@@ -977,8 +990,9 @@ func (e *Extractor) expandCharClass(re *syntax.Regexp) *Seq {
 	for i := 0; i < len(re.Rune); i += 2 {
 		lo, hi := re.Rune[i], re.Rune[i+1]
 		count += int(hi - lo + 1)
-		if count > e.config.MaxClassSize {
-			// Too large, don't expand
+		if count > e.config.MaxClassSize || count > e.config.MaxLiterals {
+			// Too large, don't expand (a class cut off at MaxLiterals members would
+			// hide the matches that begin with the other members)
 			return NewSeq()
 		}
 	}
@@ -995,10 +1009,6 @@ func (e *Extractor) expandCharClass(re *syntax.Regexp) *Seq {
 			}
 			lits = append(lits, NewLiteral(bytes, true))
 
-			// Respect MaxLiterals limit
-			if len(lits) >= e.config.MaxLiterals {
-				return NewSeq(lits...)
-			}
 		}
 	}
 
